@@ -101,6 +101,11 @@ struct World {
     std::function<void(int site)> onPreemptPoint;   // optional monitor (C08 conservation walk)
     std::function<void(uint8_t)> onHbConsEvent;         // application code inside the CONmtHbConsEvent callback
     std::function<void(const Frame &)> onPdoTransmit;   // application code inside the COPdoTransmit callback (may call the stack's API)
+    std::function<void(int)> onModeChange;              // ... inside CONmtModeChange(mode)
+    std::function<void(uint8_t, int)> onHbConsChange;   // ... inside CONmtHbConsChange(node, state)
+    std::function<void(const Frame &)> onPdoReceive;    // ... inside COPdoReceive (before the return value is given)
+    std::function<void(int)> onSyncUpdate;              // ... inside COPdoSyncUpdate(rpdo number)
+    std::function<void(const Frame &)> onCanReceive;    // ... inside COIfCanReceive
     std::function<void(void *)> tmrUserCb;          // application timer callback script
     std::function<void(CO_CSDO *, uint16_t, uint8_t, uint32_t)> csdoCb;
 
